@@ -346,7 +346,7 @@ func init() {
 	register(c08)
 
 	// ------------------------------------------------------------ C03 scrape consistency
-	c03 := &Component{Name: "pipe_c03", Exec: execPipe, Rule: base + "C03 stream: lines whose names end in _sum/_count/_bucket, equal the names of two pre-registered collectors (a counter and a gauge family registered in the same registry before the exporter starts), or consist only of tags; tag keys that are reserved (__x, le, quantile), exotic (unicode, dots, digits first) or clash with rule labels; rules giving one name different help strings; a rule that gives a name an expiring series next to its never-expiring one, with clock advances and TTL sweeps in between; all stat types; a scrape after every line. Non-trivial: the history touches at least one name with a companion suffix or a pre-registered name, or a reserved tag key."}
+	c03 := &Component{Name: "pipe_c03", Exec: execPipe, Rule: base + "C03 stream: lines whose names end in _sum/_count/_bucket, equal the names of two pre-registered collectors (a counter and a gauge family registered in the same registry before the exporter starts), or consist only of tags; tag keys that are reserved (__x, le, quantile), exotic (unicode, dots, digits first) or clash with rule labels; rules giving one name different help strings (one pair without, one pair with a ttl so that all series of the name can expire); a rule that gives a name an expiring series next to its never-expiring one, with clock advances and TTL sweeps in between; all stat types; a scrape after every line. Non-trivial: the history touches at least one name with a companion suffix or a pre-registered name, or a reserved tag key."}
 	c03.Gen = func(r *rand.Rand, tier string, emit Emit) {
 		n := 4000
 		if tier == "thorough" {
@@ -358,11 +358,14 @@ func init() {
 		pres := []preFam{{"statsd_exporter_events_total", "c", "The total number of StatsD events seen."}, {"go_goroutines", "g", "Number of goroutines that currently exist."}}
 		names := []string{"x", "x_sum", "x_count", "x_bucket", "statsd_exporter_events_total", "go_goroutines", "y", "y_sum", "a.b", "9z"}
 		keys := []string{"__x", "le", "quantile", "tag1", "é", "a.b", "9k", "t", "_", "__"}
-		corpus := [][]string{{"x:1|c", "ttl.x:1|c", "@adv3", "x:3|g"}, {"ttl.y:1|ms", "@adv3", "y_sum:1|c", "y:1|ms"}, {"foo:1|c|#__x:1"}, {",a=b:1|c"}, {"[a=b]:1|c"}, {"foo:1|ms|#quantile:0.5"}, {"hist.foo:1|ms|#le:0.5"}, {"x:1|ms", "x_sum:1|ms"}, {"hist.x_bucket:1|h", "hist.x:1|h"}, {"h1:1|c", "h2:1|c|#t:v"}}
+		corpus := [][]string{{"t1:1|c", "@adv3", "t2:1|c", "t1:1|c"}, {"t2:1|c", "t1:1|c", "@adv3", "t1:1|c|#a:b", "t2:1|c"}, {"x:1|c", "ttl.x:1|c", "@adv3", "x:3|g"}, {"ttl.y:1|ms", "@adv3", "y_sum:1|c", "y:1|ms"}, {"foo:1|c|#__x:1"}, {",a=b:1|c"}, {"[a=b]:1|c"}, {"foo:1|ms|#quantile:0.5"}, {"hist.foo:1|ms|#le:0.5"}, {"x:1|ms", "x_sum:1|ms"}, {"hist.x_bucket:1|h", "hist.x:1|h"}, {"h1:1|c", "h2:1|c|#t:v"}}
 		// `ttl.<name>` gives <name> a series that expires after 2s next to the never-expiring series of the plain line
 		base := &rawCfg{rules: []rawRule{{match: "hist.*", name: "$1", obs: sp("histogram"), mmt: sp("observer")},
 			{match: "h1", name: "hh", help: "help one"}, {match: "h2", name: "hh", help: "help two"},
-			{match: "ttl.*", name: "$1", ttl: int64(2 * time.Second), labels: [][2]string{{"exp", "1"}}}}}
+			{match: "ttl.*", name: "$1", ttl: int64(2 * time.Second), labels: [][2]string{{"exp", "1"}}},
+			// one name, two help strings, every series of it expiring
+			{match: "t1", name: "tt", help: "help one", ttl: int64(2 * time.Second)},
+			{match: "t2", name: "tt", help: "help two", ttl: int64(2 * time.Second), labels: [][2]string{{"kk", "v"}}}}}
 		for _, ls := range corpus {
 			h := &pipeHist{flags: "1111", pres: pres}
 			h.load(base)
@@ -408,8 +411,8 @@ func init() {
 				} else if r.Intn(6) == 0 {
 					name = "ttl." + name
 				}
-				if r.Intn(12) == 0 {
-					name = pick(r, []string{"h1", "h2"})
+				if r.Intn(8) == 0 {
+					name = pick(r, []string{"h1", "h2", "t1", "t2"})
 				}
 				if strings.Contains(name, "_") {
 					nt = true
